@@ -1,5 +1,4 @@
 SPECIFICATION Spec
-INVARIANT NoViolation
 INVARIANT AlphabetLemmas
 POSTCONDITION Accepted
 CHECK_DEADLOCK FALSE
